@@ -216,30 +216,53 @@ func ZZ_C35_offenders() {
 }
 
 // ZZ_C35_clear: reports judged bad or wonky (fewer than two thirds positive) are removed from
-// pending availability; good ones and unrelated cores are kept (10.15). Two cores, one pending
-// report each; report hash = Blake2b of the encoding (uninterpreted).
-//zz:workers=4
+// pending availability; good ones, unjudged ones and empty cores are kept as they are (10.15).
+// Two cores, each empty or holding a pending report; 0..2 verdict summaries, each about the
+// report of core 0, the report of core 1 or a report that is not pending, each with any vote
+// count 0..5 (so two cores can be cleared by one extrinsic, and the same report can be judged
+// twice); report hash = Blake2b of the encoding (uninterpreted, collision-free).
+//zz:workers=8
 func ZZ_C35_clear() {
 	cs := blockchain.ZZFresh()
 	rho := make(types.AvailabilityAssignments, types.CoresCount)
 	var hashes []types.WorkReportHash
-	for i := range rho {
+	var present [2]bool
+	for i := 0; i < 3; i++ {
 		a := &types.AvailabilityAssignment{}
-		a.Report.CoreIndex = types.CoreIndex(i)
+		a.Report.CoreIndex = types.CoreIndex(i % 2)
 		a.Report.AuthGasUsed = types.Gas(100 + i)
-		rho[i] = a
 		hashes = append(hashes, zzReportHash(&a.Report))
+		if i < 2 {
+			present[i] = zzvt.Range("pending", 0, 1) == 1
+			if present[i] {
+				rho[i] = a
+			}
+		}
 	}
 	cs.GetPriorStates().SetRho(rho)
-	sum := zzvt.Range("positives", 0, 5)
+	nv := zzvt.Range("verdicts", 0, 2)
+	var vs []VerdictSummary
+	var judged [2]bool
+	for k := 0; k < nv; k++ {
+		target := zzvt.Range("target", 0, 2)
+		sum := zzvt.Range("positives", 0, 5)
+		vs = append(vs, VerdictSummary{ReportHash: hashes[target], PositiveJudgmentsSum: sum})
+		if target < 2 && sum < types.ValidatorsCount*2/3 {
+			judged[target] = true
+		}
+	}
 	vc := NewVerdictController()
-	vc.ClearWorkReports([]VerdictSummary{{ReportHash: hashes[0], PositiveJudgmentsSum: sum}})
+	vc.ClearWorkReports(vs)
 	out := cs.GetIntermediateStates().GetRhoDagger()
 	zzvt.Assert(len(out) == types.CoresCount, "one-slot-per-core")
-	if sum < types.ValidatorsCount*2/3 {
-		zzvt.Assert(out[0] == nil, "bad-or-wonky-report-removed")
-	} else {
-		zzvt.Assert(out[0] != nil, "good-report-kept")
+	for i := 0; i < 2 && i < len(out); i++ {
+		switch {
+		case !present[i]:
+			zzvt.Assert(out[i] == nil, "empty-core-stays-empty")
+		case judged[i]:
+			zzvt.Assert(out[i] == nil, "bad-or-wonky-report-removed")
+		default:
+			zzvt.Assert(out[i] != nil && out[i].Report.AuthGasUsed == types.Gas(100+i), "unjudged-or-good-report-kept")
+		}
 	}
-	zzvt.Assert(out[1] != nil, "other-cores-untouched")
 }
